@@ -2,7 +2,8 @@
   Lemmas for the string casts of C17: `pyInt 10` (the model of Python's `int(str)`, Tranp/Model/Evaluator.lean) accepts exactly
   the declarative grammar `IntText`: blanks, optional sign, digits with single underscores between them, blanks.
 -/
-import Tranp.Lemmas.Evaluator
+import Tranp.Model.Evaluator
+import Tranp.Lemmas.Escape
 
 namespace Tranp.Evaluator
 open Tranp
@@ -178,4 +179,62 @@ theorem pyInt_sound {s : Str} {n : Int} (h : pyInt 10 s = .ok n) : IntText s n :
       simp [hp, applySign] at h
       obtain ⟨c, d, ds, r, rfl, hd, hds, hr⟩ := parseDigits_sound hp
       exact ⟨_, [], c, d, ds, r, m, hsplit, hl, hr, Or.inl rfl, hd, hds, by simp [h]⟩
+
+theorem pyInt_error {s : Str} {e : PyExc} (h : pyInt 10 s = .error e) : e = .valueError := by
+  unfold pyInt at h
+  split at h
+  simp only [Nat.reduceEqDiff, if_false] at h
+  split at h
+  · cases h
+  · cases h; rfl
+
+/-! ### none of the accepted texts contains a backslash -/
+
+theorem ws_no_bs {l : Str} (h : l.all isWs = true) : l.contains '\\' = false := by
+  induction l with
+  | nil => rfl
+  | cons c cs ih =>
+    simp only [List.all_cons, Bool.and_eq_true] at h
+    have hc : c ≠ '\\' := by intro hc; subst hc; exact absurd h.1 (by decide)
+    exact contains_cons_false hc (ih h.2)
+
+theorem digit_ne_bs {c : Char} {d base : Nat} (h : digVal base c = some d) : c ≠ '\\' := by
+  intro hc; subst hc; simp [digVal, Str.hexVal] at h
+
+theorem digitsAcc_no_bs {base acc : Nat} {ds : Str} {n : Nat} (h : DigitsAcc base acc ds n) : ds.contains '\\' = false := by
+  induction h with
+  | nil _ => rfl
+  | digit hd _ ih => exact contains_cons_false (digit_ne_bs hd) ih
+  | under hd _ ih => exact contains_cons_false (by decide) (contains_cons_false (digit_ne_bs hd) ih)
+
+theorem pyInt_no_bs {s : Str} {n : Int} (h : pyInt 10 s = .ok n) : s.contains '\\' = false := by
+  obtain ⟨l, sg, c, d, ds, r, m, rfl, hl, hr, hsg, hd, hds, _⟩ := pyInt_sound h
+  have h1 := ws_no_bs hl
+  have h2 := ws_no_bs hr
+  have h3 := digitsAcc_no_bs hds
+  have h4 : sg.contains '\\' = false := by rcases hsg with rfl | rfl | rfl <;> decide
+  have h5 : (c :: (ds ++ r)).contains '\\' = false := by
+    exact contains_cons_false (digit_ne_bs hd) (contains_append_false h3 h2)
+  exact contains_append_false h1 (contains_append_false h4 h5)
+
+theorem natDigits_no_bs : ∀ (fuel n : Nat) (acc : Str), acc.contains '\\' = false → (natDigits fuel n acc).contains '\\' = false := by
+  have hd : ∀ d, d < 10 → Str.digitChar d ≠ '\\' := by decide
+  intro fuel
+  induction fuel with
+  | zero => intro n acc h; simpa [natDigits] using h
+  | succ f ih =>
+    intro n acc h
+    simp only [natDigits]
+    split
+    · rename_i hlt
+      exact contains_cons_false (hd n hlt) h
+    · apply ih
+      exact contains_cons_false (hd (n % 10) (Nat.mod_lt _ (by decide))) h
+
+theorem showInt_no_bs (i : Int) : (showInt i).contains '\\' = false := by
+  unfold showInt showNat
+  split
+  · exact contains_cons_false (by decide) (natDigits_no_bs _ _ [] rfl)
+  · exact natDigits_no_bs _ _ [] rfl
+
 end Tranp.Evaluator
